@@ -41,6 +41,9 @@
        (mkRnL (cons (rt (rnt (hd l) m n s)) (rl (rnl (tl l) (rtm (rnt (hd l) m n s)) (rtn (rnt (hd l) m n s)) s)))
               (rlm (rnl (tl l) (rtm (rnt (hd l) m n s)) (rtn (rnt (hd l) m n s)) s))
               (rln (rnl (tl l) (rtm (rnt (hd l) m n s)) (rtn (rnt (hd l) m n s)) s))))))
+; L-RN-MONO (proved by induction in vf/lemmas.py): fresh copies allocate variable ids upwards
+(assert (forall ((t Term) (m (Array Int Int)) (n Int) (s Store)) (! (>= (rtn (rnt t m n s)) n) :pattern ((rnt t m n s)))))
+(assert (forall ((l TList) (m (Array Int Int)) (n Int) (s Store)) (! (>= (rln (rnl l m n s)) n) :pattern ((rnl l m n s)))))
 (define-fun emptymap () (Array Int Int) ((as const (Array Int Int)) (- 1)))
 ; copy_terms(values) under store s with allocation counter n
 (define-fun fresh_copy ((l TList) (n Int) (s Store)) TList (rl (rnl l emptymap n s)))
@@ -49,10 +52,62 @@
 ; ---- answer specifications of nondeterministic iterators (what a handle enumerates)
 (declare-datatypes ((Ans 0)) ((
   (ANone)
-  (ADyn (dkey Key) (dargs TList) (dlist Int))      ; facts of the clause list `dlist` matching dargs
+  (ADyn (dargs TList) (dlist Int))                 ; facts of the clause list `dlist` matching dargs
   (AFun (ffn Int) (fargsl TList))                   ; the registered/compiled function ffn applied to the arguments
   (AQuery (qname String) (qargs TList))             ; YP.query(name, args)
   (ACall (cgoal Term) (cextra TList))               ; YP.call(goal, *extra)
   (ASemidet (sres SRes))                            ; a semidet iterator of the unify family
   (AOther (oid Int)))))
 (declare-fun h_ans (Int) Ans)
+
+; function values: methods of this engine and module-level functions, as abstract ids
+(declare-fun fn_method (String) Int)
+(declare-fun fn_builtin_eq () Int) (declare-fun fn_unify () Int) (declare-fun fn_get_value () Int) (declare-fun fn_to_python () Int)
+(assert (forall ((s String)) (! (>= (fn_method s) 0) :pattern ((fn_method s)))))
+(assert (>= fn_builtin_eq 0)) (assert (>= fn_unify 0))
+
+; whether a stored fact matches an argument list: unify with a fresh copy of the fact (C13: per-use renaming)
+(declare-fun amatch (TList TList Int Store) SRes)
+(assert (forall ((args TList) (vals TList) (nv Int) (s Store))
+  (! (= (amatch args vals nv s) (sua args (fresh_copy vals nv s) s)) :pattern ((amatch args vals nv s)))))
+
+; ghost fields of handles returned by Answer.match: which fact, which arguments
+(declare-fun h_mfact (Int) Int)
+(declare-fun h_margs (Int) TList)
+
+; A-RN-INV (assumed, bounded-checked on the mirror): whether a fact matches does not depend on which
+; fresh variable ids the per-use copy gets.  `matches` is the id-independent notion the contracts use.
+(declare-fun matches (TList TList Store) Bool)
+(assert (forall ((args TList) (vals TList) (nv Int) (s Store))
+  (! (= ((_ is SOk) (amatch args vals nv s)) (matches args vals s)) :pattern ((amatch args vals nv s)))))
+
+; the facts among the first k of sequence q that do NOT match args (index form, for retractall's loop)
+(define-fun-rec sfilter ((q FSeq) (k Int) (args TList) (av (Array Int TList)) (s Store)) FSeq
+  (ite (<= k 0) (as seq.empty FSeq)
+       (ite (matches args (select av (seq.nth q (- k 1))) s)
+            (sfilter q (- k 1) args av s)
+            (seq.++ (sfilter q (- k 1) args av s) (seq.unit (seq.nth q (- k 1)))))))
+
+; database key of a callable term (resolved)
+(define-fun callable ((t Term)) Bool (or ((_ is TAtom) t) ((_ is TFun) t)))
+(define-fun tkey ((t Term)) Key (ite ((_ is TFun) t) (mkKey (fname t) (len (fargs t))) (mkKey (aname t) 0)))
+(define-fun targs ((t Term)) TList (ite ((_ is TFun) t) (fargs t) nil))
+
+; effect of assert_fact(key, values, append) on the heap (C07, C13, C14): a NEW list object is
+; published under the key, holding the old facts and one new Answer with a fresh copy of the values;
+; no existing list or Answer object is changed (so running enumerations keep their snapshot)
+(define-fun asserted ((ps0 (Array Key Int)) (ls0 Heap) (av0 (Array Int TList)) (nr0 Int) (nv0 Int) (pb0 (Array Int Bool))
+                      (ps (Array Key Int)) (ls Heap) (av (Array Int TList)) (nr Int) (nv Int) (pb (Array Int Bool))
+                      (k Key) (vals TList) (app Bool) (s Store)) Bool
+  (let ((r (select ps k)) (old (dbseq ps0 ls0 k)))
+  (let ((L (select ls r)) (n0 (seq.len old)))
+  (let ((nf (ite app (seq.nth L n0) (seq.nth L 0))))
+   (and (>= r nr0) (< r nr) (select pb r) (>= nr nr0) (>= nv nv0)
+        (= ps (store ps0 k r))
+        (= (seq.len L) (+ n0 1))
+        (ite app (= (seq.extract L 0 n0) old) (= (seq.extract L 1 n0) old))
+        (>= nf nr0) (< nf nr)
+        (= (select av nf) (fresh_copy vals nv0 s))
+        (forall ((q Int)) (! (=> (< q nr0) (= (select ls q) (select ls0 q))) :pattern ((select ls q))))
+        (forall ((q Int)) (! (=> (< q nr0) (= (select av q) (select av0 q))) :pattern ((select av q))))
+        (forall ((q Int)) (! (=> (< q nr0) (= (select pb q) (select pb0 q))) :pattern ((select pb q)))))))))
